@@ -1211,3 +1211,24 @@ CASES += [
          old="""                (!l_v && r_v) || (l_v && !r_v)""", new="""                l_v != r_v"""),
 ]
 CASES = [c for c in CASES if c["name"] != "le-eval-ite-branches-swapped"]
+
+CASES += [
+    dict(name="vx-manager-maps-swapped", file=VTF, rule="VX", props=["C03", "C14"], expect="VTreeManager::new:fields",
+         old="""            dfs_to_bfs: tree.dfs_to_bfs_mapping(),
+            bfs_to_dfs: tree.bfs_to_dfs_mapping(),""",
+         new="""            dfs_to_bfs: tree.bfs_to_dfs_mapping(),
+            bfs_to_dfs: tree.dfs_to_bfs_mapping(),"""),
+    dict(name="vx-manager-leaf-only-lookup", file=VTF, rule="VX", props=["C03", "C14"], expect="VTreeManager::new:index-loop",
+         old="""            index_lookup.push(v.clone());
+            if v.is_leaf() {""",
+         new="""            if v.is_leaf() {
+                index_lookup.push(v.clone());"""),
+]
+
+CASES += [
+    dict(name="bt6-lca-last-occurrence", file=BTF, rule="BT", props=["C03", "C14"], expect="LeastCommonAncestor::new:BT6",
+         old="""            if lookup[cur_var].is_none() {
+                lookup[cur_var] = Some(i);
+            }""",
+         new="""            lookup[cur_var] = Some(i);"""),
+]
